@@ -12,7 +12,7 @@
 (*  - the mechanisms are run as ACTIONS, one per code step:                        *)
 (*      HistPass                     the histogram pass (Hist.tla; binsize / nbin) *)
 (*      NumPass, NumConvert, NumMerge / NumKeep   Binner._hist_by_num, _merge_last *)
-(*      CalcStats                    the statistics loop of Binner.calc_stats      *)
+(*      CalcStats, Assemble          the statistics loop of Binner.calc_stats      *)
 (*    and the finished result dictionary is judged by the property-level spec      *)
 (*    (MechRefines);                                                               *)
 (*  - theorems about the property-level definitions themselves (ByNumSane,         *)
@@ -99,10 +99,14 @@ NumKeep ==
 
 CalcStats ==
     /\ phase = "binned"
-    /\ st' = BMechObs(c, st, FixedWhist) /\ phase' = "done" /\ UNCHANGED c
+    /\ st' = [p |-> st, bins |-> BMechBins(c, st, FixedWhist)] /\ phase' = "stats" /\ UNCHANGED c
+
+Assemble ==
+    /\ phase = "stats"
+    /\ st' = BMechObs(c, st.p, st.bins) /\ phase' = "done" /\ UNCHANGED c
 
 NextExport == ChooseData \/ ChooseSpec \/ ChooseX \/ ChooseYW
-Next == NextExport \/ HistPass \/ NumPass \/ NumConvert \/ NumMerge \/ NumKeep \/ CalcStats
+Next == NextExport \/ HistPass \/ NumPass \/ NumConvert \/ NumMerge \/ NumKeep \/ CalcStats \/ Assemble
 
 NextNoStats == NextExport \/ NumPass \/ NumConvert \/ NumMerge \/ NumKeep      \* self-test of MergeRefines
 Spec == Init /\ [][Next]_vars
